@@ -94,7 +94,7 @@ uint8_t Broker::ack_rc(uint8_t type) {
 
 void Broker::on_bytes(const ConnPtr& c, const std::string& bytes, int) {
     auto* b = state(c);
-    if (!b || b->closed || c->st != Conn::up) return;
+    if (!b || b->closed) return;
     c->c2b_pending += bytes;
     while (!c->c2b_pending.empty() && !b->closed) {
         auto d = ref::decode(c->c2b_pending, ref::Dir::from_client);
